@@ -21,7 +21,7 @@ def run(ctx):
         ev = (j.get("edge") or {}).get("o", {}).get("ev", "long-list")
         ctx.violation("caps/" + ev, j["detail"][:600], rp)
     ev = s["event_counts"]
-    if s["failures"] == 0 and not all(ev.get(k) for k in ("ls", "ack", "nak", "plus", "outcome", "reconnect")):
+    if s["failures"] == 0 and not all(ev.get(k) for k in ("ls", "ack", "nak", "plus", "outcome", "reconnect", "connectagain", "challenge")):
         raise common.Inconclusive("vacuous: an event kind was never replayed: %s" % ev)
     ctx.samples = s["samples"]
     ctx.traces_validated = s["edges"]
